@@ -18,9 +18,10 @@ Record eng := {
   dbs : list (str * bool);            (* attached database, booted? (info-schema side tables, views, macros created) *)
   schs : list key;                    (* [db; schema] *)
   tbls : list (key * list Z);         (* [db; schema; table] -> rows (autocommitted) *)
-  cmts : list (key * str)             (* rows of _fs_tables_ext *)
+  cmts : list (key * str);            (* rows of _fs_tables_ext *)
+  temps : list (nat * list Z)         (* session id -> rows of that session's TEMPORARY table merge_candidates (never durable) *)
 }.
-Definition e0 : eng := {| dbs := []; schs := []; tbls := []; cmts := [] |}.
+Definition e0 : eng := {| dbs := []; schs := []; tbls := []; cmts := []; temps := [] |}.
 
 Definition has_db (e : eng) (d : str) : bool := existsb (fun p => str_eqb (fst p) d) (dbs e).
 Definition booted (e : eng) (d : str) : bool := existsb (fun p => str_eqb (fst p) d && snd p) (dbs e).
@@ -48,7 +49,20 @@ Inductive call :=
 | TxBegin                       (* BEGIN: later statements of the session are pending until COMMIT *)
 | TxStage (k : key) (v : Z)     (* an INSERT inside the open transaction: nothing reaches the shared/durable state *)
 | CommitRows (k : key) (vs : list Z)   (* COMMIT: all pending rows become durable and visible in one call *)
-| TxRollback.
+| TxRollback
+(* MERGE INTO k USING src ON k.v = src.v WHEN NOT MATCHED THEN INSERT (v) VALUES (src.v) - transforms_merge.py: three engine calls
+   around the session's own TEMPORARY table merge_candidates *)
+| MkCands (sid : nat) (k src : key)   (* CREATE OR REPLACE TEMPORARY TABLE merge_candidates AS ... FULL OUTER JOIN ... *)
+| ApplyCands (sid : nat) (k : key)    (* INSERT INTO k SELECT ... FROM merge_candidates *)
+| CountCands (sid : nat).             (* SELECT COUNT_IF(...) FROM merge_candidates: the status row *)
+
+Fixpoint tlook (l : list (nat * list Z)) (i : nat) : option (list Z) :=
+  match l with [] => None | (j, v) :: r => if Nat.eqb j i then Some v else tlook r i end.
+Fixpoint tput (l : list (nat * list Z)) (i : nat) (v : list Z) : list (nat * list Z) :=
+  match l with
+  | [] => [(i, v)]
+  | (j, w) :: r => if Nat.eqb j i then (j, v) :: r else (j, w) :: tput r i v
+  end.
 
 Inductive ans := ABool (b : bool) | AOk | AErr (code : Z) | ARows (l : list Z) | AMeta (ex : bool) (c : option str).
 
@@ -60,26 +74,26 @@ Definition exec (e : eng) (c : call) : eng * ans :=
   | QDb d => (e, ABool (has_db e d))
   | QSchema d s => (e, ABool (has_sch e d s))
   | Attach d => if has_db e d then (e, AOk)
-                else ({| dbs := dbs e ++ [(d, false)]; schs := schs e ++ [[d; s_main]]; tbls := tbls e; cmts := cmts e |}, AOk)
+                else ({| dbs := dbs e ++ [(d, false)]; schs := schs e ++ [[d; s_main]]; tbls := tbls e; cmts := cmts e; temps := temps e |}, AOk)
   | Boot d => if has_db e d
-              then ({| dbs := map (fun p => if str_eqb (fst p) d then (fst p, true) else p) (dbs e); schs := schs e; tbls := tbls e; cmts := cmts e |}, AOk)
+              then ({| dbs := map (fun p => if str_eqb (fst p) d then (fst p, true) else p) (dbs e); schs := schs e; tbls := tbls e; cmts := cmts e; temps := temps e |}, AOk)
               else (e, AErr 2043)
   | MkSchema d s => if has_db e d
-                    then (if has_sch e d s then e else {| dbs := dbs e; schs := schs e ++ [[d; s]]; tbls := tbls e; cmts := cmts e |}, AOk)
+                    then (if has_sch e d s then e else {| dbs := dbs e; schs := schs e ++ [[d; s]]; tbls := tbls e; cmts := cmts e; temps := temps e |}, AOk)
                     else (e, AErr 2043)
   | SetSchema d s => if has_sch e d s then (e, AOk) else (e, AErr 2043)
   | MkTable k => if negb (has_db e (kd k)) then (e, AErr 2043) else
                  if has_sch e (kd k) (ks k)
                  then match klook (tbls e) k with
                       | Some _ => (e, AErr 2003)
-                      | None => ({| dbs := dbs e; schs := schs e; tbls := tbls e ++ [(k, [])]; cmts := cmts e |}, AOk)
+                      | None => ({| dbs := dbs e; schs := schs e; tbls := tbls e ++ [(k, [])]; cmts := cmts e; temps := temps e |}, AOk)
                       end
                  else (e, AErr 2003)
   | PutComment k c => if booted e (kd k)
-                      then ({| dbs := dbs e; schs := schs e; tbls := tbls e; cmts := kput (cmts e) k c |}, AOk)
+                      then ({| dbs := dbs e; schs := schs e; tbls := tbls e; cmts := kput (cmts e) k c; temps := temps e |}, AOk)
                       else (e, AErr (-1))       (* raised outside the translating try block: a raw DuckDB exception *)
   | InsertRow k v => match klook (tbls e) k with
-                     | Some rows => ({| dbs := dbs e; schs := schs e; tbls := kput (tbls e) k (rows ++ [v]); cmts := cmts e |}, AOk)
+                     | Some rows => ({| dbs := dbs e; schs := schs e; tbls := kput (tbls e) k (rows ++ [v]); cmts := cmts e; temps := temps e |}, AOk)
                      | None => (e, AErr (if has_db e (kd k) then 2003 else 2043))
                      end
   | ReadTable k => match klook (tbls e) k with Some rows => (e, ARows rows) | None => (e, AErr (if has_db e (kd k) then 2003 else 2043)) end
@@ -87,9 +101,23 @@ Definition exec (e : eng) (c : call) : eng * ans :=
   | TxBegin | TxRollback => (e, AOk)
   | TxStage k v => match klook (tbls e) k with Some _ => (e, AOk) | None => (e, AErr (if has_db e (kd k) then 2003 else 2043)) end
   | CommitRows k vs => match klook (tbls e) k with
-                       | Some rows => ({| dbs := dbs e; schs := schs e; tbls := kput (tbls e) k (rows ++ vs); cmts := cmts e |}, AOk)
+                       | Some rows => ({| dbs := dbs e; schs := schs e; tbls := kput (tbls e) k (rows ++ vs); cmts := cmts e; temps := temps e |}, AOk)
                        | None => (e, AOk)
                        end
+  | MkCands sid k src =>
+      match klook (tbls e) k, klook (tbls e) src with
+      | Some tr, Some sr =>
+          let cs := filter (fun v => negb (existsb (Z.eqb v) tr)) sr in
+          ({| dbs := dbs e; schs := schs e; tbls := tbls e; cmts := cmts e; temps := tput (temps e) sid cs |}, ARows cs)
+      | None, _ => (e, AErr (if has_db e (kd k) then 2003 else 2043))
+      | _, None => (e, AErr (if has_db e (kd src) then 2003 else 2043))
+      end
+  | ApplyCands sid k =>
+      match klook (tbls e) k, tlook (temps e) sid with
+      | Some rows, Some cs => ({| dbs := dbs e; schs := schs e; tbls := kput (tbls e) k (rows ++ cs); cmts := cmts e; temps := temps e |}, ARows cs)
+      | _, _ => (e, AErr 2003)
+      end
+  | CountCands sid => match tlook (temps e) sid with Some cs => (e, ARows [Z.of_nat (length cs)]) | None => (e, AErr 2003) end
   end.
 
 (* ---- operations as automata: pc -> next call; (pc, answer) -> next pc.  fetch = None: finished *)
@@ -100,7 +128,8 @@ Inductive op :=
 | Insert (k : key) (v : Z)
 | Read (k : key)
 | Meta (k : key)
-| TxInserts (k : key) (vs : list Z) (commit : bool).   (* BEGIN; INSERT each of vs; COMMIT | leave open / ROLLBACK *)
+| TxInserts (k : key) (vs : list Z) (commit : bool)    (* BEGIN; INSERT each of vs; COMMIT | leave open / ROLLBACK *)
+| Merge (sid : nat) (k src : key).                     (* sid = the index of the session that runs it *)
 
 Definition fetch (o : op) (pc : nat) : option call :=
   match o, pc with
@@ -127,6 +156,9 @@ Definition fetch (o : op) (pc : nat) : option call :=
       | Some v => Some (TxStage k v)
       | None => if Nat.eqb i (length vs) then Some (if commit then CommitRows k vs else TxRollback) else None
       end
+  | Merge sid k src, 0 => Some (MkCands sid k src)
+  | Merge sid k src, 1 => Some (ApplyCands sid k)
+  | Merge sid k src, 2 => Some (CountCands sid)
   | _, _ => None
   end%nat.
 
@@ -154,6 +186,8 @@ Definition advance (o : op) (pc : nat) (a : ans) : nat :=
   | CreateDb _, 0, _ => 1
   | CreateTable _ (Some _), 0, _ => 1
   | TxInserts _ vs _, p, _ => if Nat.leb p (length vs) then S p else fin
+  | Merge _ _ _, 0, _ => 1
+  | Merge _ _ _, 1, _ => 2
   | _, _, _ => fin
   end%nat.
 
@@ -244,6 +278,7 @@ Definition dec_op (x : sexp) : option op :=
   | L [A 4; k] => option_map Read (dec_key k)
   | L [A 5; k] => option_map Meta (dec_key k)
   | L [A 6; k; vs; c] => match dec_key k, dec_list dec_z vs, dec_bool c with Some k, Some vs, Some c => Some (TxInserts k vs c) | _, _, _ => None end
+  | L [A 7; i; k; src] => match dec_nat i, dec_key k, dec_key src with Some i, Some k, Some src => Some (Merge i k src) | _, _, _ => None end
   | _ => None
   end.
 Definition enc_ans (a : ans) : sexp :=
@@ -254,7 +289,8 @@ Definition enc_ans (a : ans) : sexp :=
 Definition call_class (c : call) : Z :=
   match c with QDb _ => 0 | QSchema _ _ => 1 | Attach _ => 2 | Boot _ => 3 | MkSchema _ _ => 4 | SetSchema _ _ => 5
              | MkTable _ => 6 | PutComment _ _ => 7 | InsertRow _ _ => 8 | ReadTable _ => 9 | ReadMeta _ => 10
-             | TxBegin => 11 | TxStage _ _ => 8 | CommitRows _ _ => 12 | TxRollback => 13 end.
+             | TxBegin => 11 | TxStage _ _ => 8 | CommitRows _ _ => 12 | TxRollback => 13
+             | MkCands _ _ _ => 14 | ApplyCands _ _ => 15 | CountCands _ => 16 end.
 Definition enc_eng (e : eng) : sexp :=
   L [enc_list (fun p => L [enc_str (fst p); enc_bool (snd p)]) (dbs e);
      enc_list (enc_list enc_str) (schs e);
